@@ -1,6 +1,6 @@
 (* C02 (front end) — proofs about Model/XmlFront.v, part 2: shape of the tree that is produced
    (nesting bound, no two adjacent text nodes) and where its element / attribute names come from. *)
-From Coq Require Import List NArith Lia Bool.
+From Coq Require Import List NArith PeanoNat Lia Bool.
 From Wbxml Require Import Model.TablesDefs Model.Tables Model.Codec Model.LangSelect Model.EncWbxml Model.XmlFront.
 From Wbxml Require Import Proofs.XmlFrontProofs.
 Import ListNotations.
@@ -650,3 +650,30 @@ Section Names.
     - destruct (IH _ H) as (n & a & i & l & I1 & I2). exists n, a, i, l. split; [now right|exact I2].
   Qed.
 End Names.
+
+(* ------------------------------------------------------------------ the nesting check *)
+
+(* the check of the start-element callback fires exactly when `current` has 999 ancestors or more (so that the new
+   element would have 1000 or more): the number compared is the length of the parent chain of `current`, recomputed
+   at every event — the zipper of the model has no other notion of depth *)
+Lemma nesting_check_exact main sub input c name attrs idx :
+  c_error c = WBXML_OK -> c_skip_lvl c = 0 -> c_spine c <> [] -> is_embedded_name name = false ->
+  (c_error (step main sub input c (EvStartElement name attrs idx)) = E_NESTING_TOO_DEEP <->
+   (1000 <= List.length (c_spine c))%nat).
+Proof.
+  intros E K S EM. cbn. unfold on_start_element. rewrite E, K. cbn [negb N.eqb WBXML_OK N.ltb N.compare].
+  destruct (c_spine c) as [|f up] eqn:SP; [now elim S|]. rewrite E. cbn [negb N.eqb WBXML_OK]. rewrite EM. cbn [andb].
+  rewrite SP.
+  destruct (WBXML_MAX_NESTING_DEPTH <=? N.of_nat (List.length (f :: up))) eqn:D.
+  - apply N.leb_le in D. unfold WBXML_MAX_NESTING_DEPTH in D. cbn [c_error set_error]. split; [intros _; lia|reflexivity].
+  - apply N.leb_gt in D. unfold WBXML_MAX_NESTING_DEPTH in D. split; [|intros X; lia].
+    destruct (c_lang c) as [l|]; [|cbn; discriminate].
+    destruct (resolve_tag l name) as [tag page]. unfold push_frame. cbn. rewrite SP. cbn. rewrite E. discriminate.
+Qed.
+
+Lemma tree_ok_eheight t r : tree_ok t -> In r (xt_roots t) -> (eheight r <= 1000)%nat.
+Proof.
+  intros [_ F] I. rewrite Forall_forall in F. specialize (F r I).
+  destruct (Nat.eq_dec (eheight r) 0) as [Z|Z]; [lia|].
+  pose proof (eheight_bound r 0 F). lia.
+Qed.
